@@ -592,7 +592,10 @@ def render_text(spec: Dict[str, Any]) -> Dict[str, List[Tuple[str, str]]]:
     t = spec["text"]
     r = Rend(0)
     b = 4 if spec["pos"] == "main" else 0
-    if t["fam"] == "lit":
+    if t["fam"] == "qs":
+        _text_qs(r, b, t["i"])
+        top = 'mainmenu "Top"'
+    elif t["fam"] == "lit":
         _text_lit(r, b, TEXT_LITS[t["i"]], TEXT_LITS[(t["i"] + 1) % len(TEXT_LITS)], TEXT_GAPS[t["gap"]])
         top = 'mainmenu "Top"'
     else:
@@ -751,6 +754,50 @@ def _text_kw(r: Rend, b: int, kw: str, lead: int = 1) -> None:
     r.blank()
 
 
+# family "qs": quoted texts whose INSIDE looks like Kconfig syntax -- every sequence of 1..3 words over QS_WORDS joined by one
+# blank (` if ` between words, ` && `, `depends on`, ` # `, lower-case words, `!x`, `(a)`, `=`) -- as the value of a
+# conditional default, as a conditional prompt (both spellings) and as a literal in depends on / select / imply conditions,
+# each followed by a REAL condition.  Not generated (the unchanged library refuses them, see findings/C18-if-inside-quoted-*):
+# an unconditional `default "a if b"` and a literal "a if b" in the condition of a default / range line.
+QS_WORDS = ("sleep", "if", "&&", "depends on", "#", "IDLE", "!x", "(a)", "=")
+QS_TEXTS = tuple(" ".join(c) for n in (1, 2, 3) for c in itertools.product(QS_WORDS, repeat=n))
+QS_PER_FILE = 27
+
+
+def _text_qs(r: Rend, b: int, i: int) -> None:
+    r.add(b, "config APP_QEN", "config")
+    r.add(b + 4, 'bool "Enable"', "prop")
+    r.blank()
+    r.add(b, "config APP_QH", "config")
+    r.add(b + 4, 'bool "Helper"', "prop")
+    r.blank()
+    r.add(b, "config APP_QMODE", "config")
+    r.add(b + 4, 'string "Mode"', "prop")
+    r.add(b + 4, 'default "a"', "prop")
+    r.blank()
+    for j, t in enumerate(QS_TEXTS[i * QS_PER_FILE : (i + 1) * QS_PER_FILE]):
+        r.add(b, f"config APP_Q{j}_VALUE", "config")
+        r.add(b + 4, 'string "Value"', "prop")
+        r.add(b + 4, f'default "{t}" if APP_QEN', "prop.qs.default_value_if")
+        r.add(b + 4, f'default "{t}" if APP_QEN && !APP_QH  # the second one', "prop.qs.default_value_if.hash")
+        r.add(b + 4, 'default "run"', "prop")
+        r.blank()
+        r.add(b, f"config APP_Q{j}_PROMPT", "config")
+        r.add(b + 4, f'string "Name {t}" if APP_QEN', "prop.qs.type_prompt_if")
+        r.add(b + 4, 'default "x"', "prop")
+        r.blank()
+        r.add(b, f"config APP_Q{j}_PROMPT2", "config")
+        r.add(b + 4, "string", "prop")
+        r.add(b + 4, f'prompt "{t} name" if APP_QEN || APP_QH', "prop.qs.prompt_if")
+        r.blank()
+        r.add(b, f"config APP_Q{j}_DEP", "config")
+        r.add(b + 4, 'bool "Dependent"', "prop")
+        r.add(b + 4, f'depends on APP_QMODE = "{t}"', "prop.qs.depends_literal")
+        r.add(b + 4, f'select APP_QH if APP_QMODE = "{t}"', "prop.qs.select_literal")
+        r.add(b + 4, f'imply APP_QH if APP_QMODE != "{t}" && APP_QEN', "prop.qs.imply_literal")
+        r.blank()
+
+
 def text_specs(tier: str) -> List[Dict[str, Any]]:
     """every program of the TEXT families (checked as it is: clause 1, and that both parsers read it alike)"""
     out = []
@@ -760,6 +807,8 @@ def text_specs(tier: str) -> List[Dict[str, Any]]:
                 out.append({"forest": (("textlit",),), "rot": 0, "pos": pos, "D": 0, "tag": "text", "text": {"fam": "lit", "i": i, "gap": gap}})
         for i in range(len(TEXT_KWS)):
             out.append({"forest": (("textkw",),), "rot": 0, "pos": pos, "D": 0, "tag": "text", "text": {"fam": "kw", "i": i}})
+        for i in range((len(QS_TEXTS) + QS_PER_FILE - 1) // QS_PER_FILE):
+            out.append({"forest": (("textqs",),), "rot": 0, "pos": pos, "D": 0, "tag": "text", "text": {"fam": "qs", "i": i}})
     return out
 
 
@@ -1387,6 +1436,23 @@ def check_canonical(ctx: Ctx, r: common.Result, labels: List[str], spec: Any) ->
                 r.count("canonical_rejected_by_parser2(C04)")
             elif m2 != m1:
                 r.count("canonical_parsers_disagree(C04)")
+    elif ctx.family == "kconfig" and isinstance(spec, dict) and (spec.get("text") or {}).get("fam") == "qs":
+        # keyword-like text inside quotes: clause 1 is about the checker; parser 1 has to read the file, parser 2 splits a
+        # line at a bare ` if ` / `#` inside quotes (property C04, recorded there) -- counted, not judged
+        m1 = ctx.meaning(text, 1)
+        if m1[0] != "ok":
+            good = False
+            r.violation(
+                {"kind": "canonical_rejected_by_parser1", "mangling": "none", "entry": "canonical:" + constructs, "exc": m1[1]},
+                f"[canonical {ctx.target}] parser 1 rejects the compliant program: {m1[1:3]}",
+                case,
+            )
+        else:
+            m2 = ctx.meaning(text, 2)
+            if m2[0] != "ok":
+                r.count("canonical_rejected_by_parser2(C04)")
+            elif m2 != m1:
+                r.count("canonical_parsers_disagree(C04)")
     elif ctx.family == "kconfig":
         m1 = ctx.meaning(text, 1)
         m2 = ctx.meaning(text, 2)
@@ -1414,6 +1480,8 @@ def odd_sig(spec: Any) -> Dict[str, str]:
             n = len(TEXT_LITS)
             empty = "" in (TEXT_LITS[text["i"] % n], TEXT_LITS[(text["i"] + 1) % n])
             return {"text": "string_literals_and_trailing_comment" + ("+empty_literal" if empty else "")}
+        if text["fam"] == "qs":
+            return {"text": "syntax_like_text_inside_quotes"}
         return {"text": "keyword_in_texts:" + TEXT_KWS[text["i"]].replace(" ", "_")}
     odd = spec.get("odd") if isinstance(spec, dict) else None
     if not odd:
